@@ -53,6 +53,68 @@ def scan_file(args):
             out.append({"file": loc[0], "line": loc[1], "function": loc[2], "callee": f, "why": "result not compared with 1: " + use[:120]})
     return src, out, ""
 
+# ---- second rule (C04): call sites of the streaming DECRYPTORS whose output lags their input (held-back block / tag).
+# Their contracts require SEPARATE(in, out); a call that passes the same expression for both violates it.
+LAGGING_DECRYPTORS = {"sm4_cbc_decrypt_update": (1, 3), "sm4_gcm_decrypt_update": (1, 3), "sm4_cbc_sm3_hmac_decrypt_update": (1, 3),
+                      "sm4_ctr_sm3_hmac_decrypt_update": (1, 3)}
+
+def split_args(a):
+    out, depth, cur = [], 0, ""
+    for ch in a:
+        if ch in "([": depth += 1
+        if ch in ")]": depth -= 1
+        if ch == "," and depth == 0:
+            out.append(cur.strip()); cur = ""
+        else:
+            cur += ch
+    out.append(cur.strip())
+    return out
+
+def scan_inplace_file(args):
+    src, wd = args
+    gb = os.path.join(wd, src.replace("/", "_") + ".gb")
+    _, defs = verif.cfg()
+    p = subprocess.run(["goto-cc", "-I" + os.path.join(verif.REPO, "include")] + defs + ["-c", os.path.join(verif.REPO, src), "-o", gb],
+                       stdout=subprocess.PIPE, stderr=subprocess.STDOUT)
+    if p.returncode != 0:
+        return src, None, p.stdout.decode("utf-8", "replace")[-300:]
+    gf = subprocess.run(["goto-instrument", "--show-goto-functions", gb], stdout=subprocess.PIPE, stderr=subprocess.DEVNULL).stdout.decode("utf-8", "replace")
+    os.remove(gb)
+    out, loc = [], ("", 0, "")
+    for line in gf.splitlines():
+        m = re.match(r"^\s+// \d+ file (\S+) line (\d+) function (\S+)", line)
+        if m:
+            loc = (os.path.relpath(m.group(1), verif.REPO), int(m.group(2)), m.group(3))
+            continue
+        m = re.match(r"^\s+CALL (?:\S+ := )?([A-Za-z_]\w*)\((.*)\)\s*$", line)
+        if m and m.group(1) in LAGGING_DECRYPTORS:
+            i, o = LAGGING_DECRYPTORS[m.group(1)]
+            a = split_args(m.group(2))
+            if len(a) > max(i, o) and a[i] == a[o]:
+                out.append({"file": loc[0], "line": loc[1], "function": loc[2], "callee": m.group(1), "why": "in and out are the same object: " + a[i][:80]})
+    return src, out, ""
+
+def run_inplace_scan():
+    import glob
+    src, _ = verif.cfg()
+    tools = [os.path.relpath(t, verif.REPO) for t in sorted(glob.glob(os.path.join(verif.REPO, "tools", "*.c")))]
+    os.makedirs(verif.WORKROOT, exist_ok=True)
+    wd = tempfile.mkdtemp(prefix="c04scan.", dir=verif.WORKROOT)
+    try:
+        with ThreadPoolExecutor(verif.NCPU) as ex:
+            rs = list(ex.map(scan_inplace_file, [(s, wd) for s in src + tools]))
+    finally:
+        shutil.rmtree(wd, ignore_errors=True)
+    findings, errors = [], []
+    for s_, o, err in rs:
+        if o is None:
+            # tools that need optional components may not compile in the default configuration: not an error of the scan
+            if s_.startswith("src/"):
+                errors.append({"file": s_, "error": err})
+        else:
+            findings += o
+    return {"files": len(rs), "callees": sorted(LAGGING_DECRYPTORS), "findings": findings, "errors": errors}
+
 def run_scan():
     src, _ = verif.cfg()
     os.makedirs(verif.WORKROOT, exist_ok=True)
@@ -71,5 +133,5 @@ def run_scan():
     return {"files": len(rs), "callees": FAIL_CLOSED, "findings": findings, "errors": errors}
 
 if __name__ == "__main__":
-    r = run_scan()
+    r = run_inplace_scan() if len(sys.argv) > 1 and sys.argv[1] == "inplace" else run_scan()
     print(json.dumps(r, indent=1))
